@@ -403,6 +403,20 @@ impl<T: HashAlgorithm> Nomt<T> {
     pub fn hash_table_utilization(&self) -> HashTableUtilization {
         self.store.hash_table_utilization()
     }
+
+    /// Verification hook: `Store::load_page` (the lookup `open` uses for the root page) for an
+    /// arbitrary page. Returns the page and the bucket it was found in.
+    #[cfg(nomt_verif)]
+    #[allow(missing_docs)]
+    pub fn verif_load_page(
+        &self,
+        page_id: nomt_core::page_id::PageId,
+    ) -> anyhow::Result<Option<(Vec<u8>, u64)>> {
+        Ok(self
+            .store
+            .load_page(page_id)?
+            .map(|(page, bucket)| (page[..].to_vec(), bucket.verif_index())))
+    }
 }
 
 /// A configuration type used to inform NOMT whether to generate witnesses of accessed data.
